@@ -207,11 +207,15 @@ def run_job(job, workdir):
             continue
         if st != 'SUCCESS':
             if cls == 'unwinding' and not pn.startswith('__CPROVER_contracts'):
-                res['log'] = 'unwinding assertion failed (%s): the stated loop bound is too small - tool trouble, not a violation' % pn
-                res['status'] = 'trouble'
-                return res
+                res.setdefault('unwinding_failed', []).append(pn)
+                continue
             res['failed'].append(ob)
     res['status'] = 'violated' if res['failed'] else 'ok'
+    if res.get('unwinding_failed') and not res['failed']:
+        # only the bound is exceeded and nothing else fails: the stated loop bound is too small (tool trouble, never a violation)
+        res['log'] = 'unwinding assertion failed (%s): the stated loop bound is too small - tool trouble, not a violation' % res['unwinding_failed'][0]
+        res['status'] = 'trouble'
+        return res
     if res.get('unknown') and not res['failed']:
         res['status'] = 'trouble'
         res['log'] = 'cbmc left %d obligations undecided (UNKNOWN) without reporting a failure' % len(res['unknown'])
